@@ -5,10 +5,17 @@
    NOT proved: "the run then finishes as if the task had produced its new result the first time"
    (needs the denotational semantics; decided by trace correspondence + oracle), the
    with-items part (reset on/off: property C07), enclosing workflows / parent tasks (no
-   sub-workflows in the core model). *)
+   sub-workflows in the core model).
+   Second part (Model/Rerun.v, Proofs/RerunProofs.v): the propagation of a rerun / skip over the
+   EXECUTION TREE (workflow executions with their parent tasks, any nesting depth, any states of
+   the rows): closed form of Workflow._recursive_rerun, every enclosing workflow and parent task
+   RUNNING after an accepted request whatever state they were in (RUNNING included), nothing
+   outside the chain touched, exact acceptance condition, refusals change nothing, the REST
+   guards, with-items reset on / off, repeated requests. *)
 From Coq Require Import List Bool.
 Require Import Mistral.Gen.States Mistral.Model.Engine.
 Require Import Mistral.Proofs.StatesProofs Mistral.Proofs.EngineWf Mistral.Proofs.EngineSafety Mistral.Proofs.EngineMore.
+Require Mistral.Model.Rerun Mistral.Proofs.RerunProofs.
 Import ListNotations.
 
 Theorem C12_rerun_refused_when_paused : forall sp s tid reset,
@@ -69,3 +76,166 @@ Example C12_nonvacuous :
                         EFire (IResult 1 OOk); EFirePtq 0; EFire (IStartTask 1 true false false); EFirePtq 0;
                         EFire (IExec 2); EFire (IResult 2 OOk); EFirePtq 0]) = SUCCESS.
 Proof. vm_compute. repeat split. Qed.
+
+(* ====================================================================== *)
+(* rerun / skip over the execution tree (Model/Rerun.v)                     *)
+Module Tree.
+Import Mistral.Model.Rerun Mistral.Proofs.RerunProofs.
+
+(* closed form of Workflow._recursive_rerun, for every nesting depth and every state of every row:
+   exactly the workflows of the chain get (RUNNING, accepted=false), exactly their parent tasks get
+   Task.set_state(RUNNING), the tree structure is unchanged *)
+Theorem C12_recursive_rerun_closed_form : forall fuel d w d',
+  recursive_rerun fuel d w = Some d' ->
+  exists l, chain fuel d w = Some l /\
+    ((forall w', wrow_of d' w' = if memn w' (chain_wfs l) then option_map wrow_running (wrow_of d w') else wrow_of d w') /\
+     (forall t, trow_of d' t = if memn t (chain_tasks l) then option_map trow_running (trow_of d t) else trow_of d t)) /\
+    same_ptrs d d'.
+Proof. exact recursive_rerun_closed_form. Qed.
+Print Assumptions C12_recursive_rerun_closed_form.
+
+(* an accepted rerun / skip: the task's workflow and every enclosing workflow are RUNNING (and no longer
+   accepted by their parents), every parent task is RUNNING - whatever state they were in before, RUNNING
+   included; a skipped task is SKIPPED, a rerun one RUNNING already in the same transaction *)
+Theorem C12_accepted_request_puts_chain_running : forall d t skip d' b,
+  rerun_workflow d t skip = (d', Ok, b) ->
+  forall tr, trow_of d t = Some tr -> wstate d (t_wf tr) <> Some PAUSED ->
+  exists l, chain (fuel_of d) d (t_wf tr) = Some l /\
+    (forall w, In w (chain_wfs l) -> wstate d' w = Some RUNNING /\ wacc d' w = Some false) /\
+    (forall pt, In pt (chain_tasks l) -> pt <> t -> tstate d' pt = Some RUNNING) /\
+    (skip = true -> tstate d' t = Some SKIPPED) /\
+    (skip = false -> (t_state tr = ERROR \/ t_state tr = CANCELLED) -> ~ In t (chain_tasks l) -> tstate d' t = Some RUNNING) /\
+    same_ptrs d d'.
+Proof. exact rerun_accepted_chain_running. Qed.
+Print Assumptions C12_accepted_request_puts_chain_running.
+
+(* a parent task whose own workflow is still RUNNING (another branch has not finished) is put back to
+   RUNNING all the same: the propagation does not stop at a workflow that is alive *)
+Theorem C12_running_parent_workflow_does_not_stop_propagation : forall fuel d w d' l pt,
+  recursive_rerun fuel d w = Some d' -> chain fuel d w = Some l -> In pt (chain_tasks l) ->
+  (exists pw, twf d pt = Some pw /\ wstate d pw = Some RUNNING) ->
+  tstate d' pt = Some RUNNING.
+Proof. exact rerun_through_running_parent. Qed.
+Print Assumptions C12_running_parent_workflow_does_not_stop_propagation.
+
+(* nothing outside the chain changes: other workflow rows are untouched; task rows of other workflows are
+   untouched; tasks of the task's own workflow keep state and executions (only `processed` may be set) *)
+Theorem C12_accepted_request_frame : forall d t skip d' b,
+  rerun_workflow d t skip = (d', Ok, b) ->
+  forall tr, trow_of d t = Some tr -> wstate d (t_wf tr) <> Some PAUSED ->
+  exists l, chain (fuel_of d) d (t_wf tr) = Some l /\
+    (forall w, ~ In w (chain_wfs l) -> wrow_of d' w = wrow_of d w) /\
+    (forall t' r, t' <> t -> ~ In t' (chain_tasks l) -> trow_of d t' = Some r -> t_wf r <> t_wf tr -> trow_of d' t' = Some r) /\
+    (forall t' r, t' <> t -> ~ In t' (chain_tasks l) -> trow_of d t' = Some r ->
+       exists r', trow_of d' t' = Some r' /\ t_state r' = t_state r /\ t_execs r' = t_execs r /\ t_wf r' = t_wf r).
+Proof. exact rerun_accepted_frame. Qed.
+Print Assumptions C12_accepted_request_frame.
+
+(* acceptance, exactly: every workflow of the chain must be able to go (back) to RUNNING, i.e. none of them
+   SUCCESS (or SKIPPED / unknown) *)
+Theorem C12_propagation_accepted_iff_no_succeeded_ancestor : forall fuel d w l,
+  chain fuel d w = Some l ->
+  ((forall w', In w' (chain_wfs l) -> wcan d w' = true) -> exists d', recursive_rerun fuel d w = Some d') /\
+  (forall w', In w' (chain_wfs l) -> wcan d w' = false -> recursive_rerun fuel d w = None) /\
+  (forall s, can_run s = negb (mem s [SUCCESS; SKIPPED]) && is_valid s).
+Proof. exact propagation_acceptance. Qed.
+Print Assumptions C12_propagation_accepted_iff_no_succeeded_ancestor.
+
+(* refusals change nothing *)
+Theorem C12_refused_request_changes_nothing : forall d t skip d' b,
+  rerun_workflow d t skip = (d', Declared, b) -> d' = d /\ b = false.
+Proof. exact rerun_refused_changes_nothing. Qed.
+Print Assumptions C12_refused_request_changes_nothing.
+
+Theorem C12_request_in_succeeded_tree_refused : forall d t skip tr l w,
+  trow_of d t = Some tr -> wstate d (t_wf tr) <> Some PAUSED ->
+  chain (fuel_of d) d (t_wf tr) = Some l -> In w (chain_wfs l) ->
+  (wstate d w = Some SUCCESS \/ wstate d w = Some SKIPPED) ->
+  rerun_workflow d t skip = (d, Declared, false).
+Proof. exact rerun_refused_when_ancestor_cannot_run. Qed.
+Print Assumptions C12_request_in_succeeded_tree_refused.
+
+Theorem C12_request_in_paused_workflow_changes_nothing : forall d t skip tr,
+  trow_of d t = Some tr -> wstate d (t_wf tr) = Some PAUSED -> rerun_workflow d t skip = (d, Ok, false).
+Proof. exact rerun_paused_changes_nothing. Qed.
+Print Assumptions C12_request_in_paused_workflow_changes_nothing.
+
+(* REST: a task that is not in ERROR can be neither rerun nor skipped *)
+Theorem C12_api_refuses_task_not_in_error : forall d t ns reset wi tr,
+  trow_of d t = Some tr -> t_state tr <> ERROR -> api_put d t ns reset wi = (d, Declared, false).
+Proof. exact api_refuses_unless_error. Qed.
+Print Assumptions C12_api_refuses_task_not_in_error.
+
+Theorem C12_succeeded_task_start_refused : forall d t reset items tr,
+  trow_of d t = Some tr -> t_state tr = SUCCESS -> start_rerun d t reset items = (d, Declared).
+Proof. exact start_rerun_refuses_succeeded. Qed.
+Print Assumptions C12_succeeded_task_start_refused.
+
+(* request + delivery of the start request *)
+Theorem C12_rerun_then_start_everything_running : forall d t d1 reset items tr,
+  rerun_workflow d t false = (d1, Ok, true) ->
+  trow_of d t = Some tr -> wstate d (t_wf tr) <> Some PAUSED -> t_state tr = ERROR ->
+  exists l d2, chain (fuel_of d) d (t_wf tr) = Some l /\ start_rerun d1 t reset items = (d2, Ok) /\
+    tstate d2 t = Some RUNNING /\
+    (forall w, In w (chain_wfs l) -> wstate d2 w = Some RUNNING) /\
+    (forall pt, In pt (chain_tasks l) -> tstate d2 pt = Some RUNNING).
+Proof. exact rerun_then_start_all_running. Qed.
+Print Assumptions C12_rerun_then_start_everything_running.
+
+(* with-items *)
+Theorem C12_items_reset_off_exactly_failed_items : forall count l i,
+  In i (rerun_items false count l) <->
+  i < count /\ forall a, In a l -> a_index a = i ->
+     is_completed (a_state a) = true /\ (a_accepted a = true -> a_state a = ERROR \/ a_state a = CANCELLED).
+Proof. exact rerun_items_noreset_exact. Qed.
+Print Assumptions C12_items_reset_off_exactly_failed_items.
+
+Theorem C12_items_reset_off_keeps_successful : forall l a,
+  In a l -> a_accepted a = true -> a_state a = SUCCESS -> In a (reset_execs false l).
+Proof. exact reset_off_keeps_successful. Qed.
+Print Assumptions C12_items_reset_off_keeps_successful.
+
+Theorem C12_items_reset_on_all_items : forall count l,
+  (forall a, In a l -> is_completed (a_state a) = true) -> rerun_items true count l = seq 0 count.
+Proof. exact rerun_items_reset_all. Qed.
+Print Assumptions C12_items_reset_on_all_items.
+
+Theorem C12_items_batch_within_concurrency : forall count cap l,
+  incl (next_indexes count cap l) (free_indexes count l) /\ NoDup (next_indexes count cap l) /\
+  (forall c, cap = Some c -> length (next_indexes count cap l) <= c).
+Proof. exact next_indexes_batch. Qed.
+Print Assumptions C12_items_batch_within_concurrency.
+
+(* repeated requests *)
+Theorem C12_repeated_propagation_idempotent : forall fuel d w d',
+  recursive_rerun fuel d w = Some d' -> recursive_rerun fuel d' w = Some d'.
+Proof. exact recursive_rerun_idempotent. Qed.
+Print Assumptions C12_repeated_propagation_idempotent.
+
+Theorem C12_reruns_compose : forall d t skip d' b ops tr,
+  rerun_workflow d t skip = (d', Ok, b) -> trow_of d t = Some tr -> wstate d (t_wf tr) <> Some PAUSED ->
+  exists l, chain (fuel_of d) d (t_wf tr) = Some l /\
+    forall w, In w (chain_wfs l) -> wstate (fold_left apply_op ops d') w = Some RUNNING.
+Proof. exact accepted_chain_stays_running. Qed.
+Print Assumptions C12_reruns_compose.
+
+(* non-vacuity: depth 2, the root workflow still RUNNING because of a parallel branch (the seeded case),
+   sub-workflows and their parent tasks in ERROR; a with-items task with one failed item *)
+Example C12_tree_nonvacuous :
+  let d := mkDb [mkW RUNNING false None; mkW ERROR true (Some 0); mkW ERROR true (Some 2)]
+                [mkT 0 ERROR true true []; mkT 0 RUNNING false false [mkA 0 RUNNING false];
+                 mkT 1 ERROR true true []; mkT 2 ERROR true true [mkA 0 SUCCESS true; mkA 1 ERROR true; mkA 2 SUCCESS true]] in
+  chain (fuel_of d) d 2 = Some [(2, Some 2); (1, Some 0); (0, None)] /\
+  (let '(d1, o, st) := rerun_workflow d 3 false in
+   o = Ok /\ st = true /\
+   map w_state (wfs d1) = [RUNNING; RUNNING; RUNNING] /\ map t_state (tasks d1) = [RUNNING; RUNNING; RUNNING; RUNNING] /\
+   nth_error (tasks d1) 1 = nth_error (tasks d) 1 /\
+   (let '(d2, o2) := start_rerun d1 3 false (Some (3, None)) in
+    o2 = Ok /\ option_map t_execs (nth_error (tasks d2) 3) =
+               Some [mkA 0 SUCCESS true; mkA 1 ERROR false; mkA 2 SUCCESS true; mkA 1 RUNNING false])) /\
+  rerun_items false 3 [mkA 0 SUCCESS true; mkA 1 ERROR true; mkA 2 SUCCESS true] = [1] /\
+  rerun_items true 3 [mkA 0 SUCCESS true; mkA 1 ERROR true; mkA 2 SUCCESS true] = [0; 1; 2] /\
+  rerun_workflow (mkDb [mkW SUCCESS true None; mkW ERROR true (Some 0)] [mkT 0 ERROR true true []; mkT 1 ERROR true true []]) 1 false
+    = (mkDb [mkW SUCCESS true None; mkW ERROR true (Some 0)] [mkT 0 ERROR true true []; mkT 1 ERROR true true []], Declared, false).
+Proof. vm_compute. repeat split. Qed.
+End Tree.
